@@ -5,6 +5,7 @@ import PercevalModel.Model.C16Heap
 import PercevalModel.Model.C16Rpc
 import PercevalModel.Model.C16Add
 import PercevalModel.Model.C16PS
+import PercevalModel.Model.C16Est
 
 /-!
   Line protocol for C16.  One request = one session:
@@ -429,9 +430,42 @@ def handlePs (j : Json) : Except String Json := do
     ("remote", toJson (ts.map (PSel.evalTop y))),
     ("denote", toJson (ts.map (PSel.evalTop d)))])
 
+/-- part "est": the shot / sample estimators (`Model/C16Est.lean`)
+`{"part":"est","m":…,"size":…,"heralds":[[mode,n]…],"input":[…]|null,"filter":i|null,"nsamples":i,"nshots":i}` -/
+def estJson : Res Est → Json
+  | .error e => Json.mkObj [("exc", .str e.name)]
+  | .ok .noneVal => Json.mkObj [("none", .bool true)]
+  | .ok (.exact k) => Json.mkObj [("exact", toJson k)]
+  | .ok (.simulated k) => Json.mkObj [("simulated", toJson k)]
+
+def handleEst (j : Json) : Except String Json := do
+  let m ← natOf j "m"
+  let size ← natOf j "size"
+  let hs ← (← arrOf j "heralds").toList.mapM fun h => do
+    match h with
+    | .arr #[a, b] => pure ((← a.getNat?), (← b.getNat?))
+    | _ => throw "bad herald"
+  let input ← optOf j "input" natList
+  let filter ← optOf j "filter" (fun x => x.getInt?)
+  let nsamples ← intOf j "nsamples"
+  let nshots ← intOf j "nshots"
+  let e : Exp := { m := m, size := size, heralds := hs, input := input, post := none, noise := none,
+                   filter := filter, params := [], circ := ⟨0, []⟩, cparams := [] }
+  match input with
+  | some s => if s.length != size then throw "precondition"
+  | none => pure ()
+  let g : Json := match interest e with
+    | .error err => Json.mkObj [("exc", .str err.name)]
+    | .ok .zero => .str "zero"
+    | .ok .one => .str "one"
+    | .ok (.simulate k) => Json.mkObj [("simulate", toJson k)]
+  pure (Json.mkObj [("interest", g), ("required", estJson (requiredShots e nsamples)),
+    ("expected", estJson (expectedSamples e nshots))])
+
 def handleAll (j : Json) : Json :=
   match j.getObjVal? "part" with
   | .ok (.str "ps") => match handlePs j with | .ok v => v | .error e => errJson e
+  | .ok (.str "est") => match handleEst j with | .ok v => v | .error e => errJson e
   | .ok _ => errJson "unknown part"
   | .error _ => handle j
 
